@@ -85,7 +85,10 @@ def run_models(ctx, quick):
     discf = worker(True, {"op": "discover"})
     if set(disc["classes"]) != set(discf["classes"]):
         raise Machinery("the two back ends expose different model classes: %s" % (set(disc["classes"]) ^ set(discf["classes"])))
-    gen = worker(False, {"op": "generate", "seed": ctx.seed + 9, "max_all": 5 if quick else 7, "samples": 6 if quick else 40})
+    gen = worker(False, {"op": "generate", "seed": ctx.seed + 9, "max_all": 5 if quick else 7, "samples": 6 if quick else 40, "reps": 1 if quick else 6})
+    # the same object generated twice adds nothing
+    seen = set()
+    gen["cases"] = [c for c in gen["cases"] if not (json.dumps(c, sort_keys=True) in seen or seen.add(json.dumps(c, sort_keys=True)))]
     cases = [c for c in gen["cases"] if not c["cls"].startswith(EXCLUDED_PREFIXES)]
     cases = [c for c in cases if not c["cls"].endswith(("JSONRPCError", ".JSONRPCMessage"))]
     for cls, w in special_cases():
@@ -373,6 +376,63 @@ PAYLOADS = [None, {}, {"a": 1}, {"nil": None}, {"l": [None, 1, {"x": None}]}, {"
 IDVALS = [0, 1, -1, 2**63, 2**64 - 1, "", "abc", "123", "007", "uuid-1234"]
 
 
+def emit_recs(cases, out, fb, cov):
+    recs = []
+    for c, o in zip(cases, out):
+        want = EMITTERS[c["emitter"]]
+        if not o["built"]:
+            cov.setdefault("not_built_examples", [])
+            if len(cov["not_built_examples"]) < 6:
+                cov["not_built_examples"].append([c["emitter"], "fallback" if fb else "pydantic", o.get("exc"), str(untag(c["id"]))[:30]])
+            recs.append({"emitter": c["emitter"], "want": want, "backend": "fallback" if fb else "pydantic", "form": "none", "env": {"obj": False}, "penv": {"obj": False}, "idEq": False, "sameTree": False, "built": False, "src": c})
+            continue
+        idv = untag(c["id"])
+        for form, f in o["forms"].items():
+            d = untag(f["tree"])
+            pd = untag(f["parsed"]["tree"]) if f["parsed"]["env"].get("obj") else None
+            want_id = want != "notification"
+            if c["emitter"] == "send_tools_call" or (c["emitter"] == "send_message" and not idv):
+                # the helper generates the id: any non-empty string, the same before and after parsing
+                want_id = False
+                gen_ok = isinstance(d, dict) and isinstance(d.get("id"), str) and d["id"] != "" and isinstance(pd, dict) and pd.get("id") == d["id"]
+            else:
+                gen_ok = True
+            id_eq = gen_ok and (not want_id) or (isinstance(pd, dict) and "id" in pd and pd["id"] == idv and type(pd["id"]) is type(idv) and isinstance(d, dict) and d.get("id") == idv and type(d.get("id")) is type(idv))
+            pl = untag(c["payload"])
+            if c["emitter"] == "create_request_token":
+                pl = dict(pl or {})
+                pl["_meta"] = dict(pl.get("_meta") or {}, progressToken="tok-1")
+            elif c["emitter"] == "send_tools_call":
+                pl = {"name": "tool-x", "arguments": pl or {}}
+            elif c["emitter"] == "send_cancelled_notification":
+                pl = {"requestId": idv, "reason": "why"}
+            elif c["emitter"] == "send_progress_notification":
+                pl = {"progressToken": idv, "progress": 0.5, "total": 1.0, "message": "half"}
+            elif c["emitter"].startswith("batch.item_error") or c["emitter"] in ("handle_elicitation_request:fails", "batch.rejection"):
+                pl = None
+            elif c["emitter"] in ("send_initialized_notification", "send_roots_list_changed.notifications", "send_roots_list_changed.roots"):
+                pl = {}
+            elif c["emitter"] == "handle_roots_list_request":
+                pl = {"roots": [{"uri": "file:///tmp/verif", "name": "r\u2028"}]}
+            elif c["emitter"] == "handle_elicitation_request":
+                pl = {"data": pl if pl is not None else {}, "cancelled": False}
+            if want == "result":
+                got_pl = d.get("result") if isinstance(d, dict) else None
+                if pl is None or (pl == {} and c["emitter"].startswith(("create", "legacy"))):
+                    pl = {}
+            elif want == "error":
+                got_pl = (d.get("error") or {}).get("data") if isinstance(d, dict) else None
+            else:
+                got_pl = d.get("params") if isinstance(d, dict) else None
+            payload_eq = tag(got_pl) == tag(pl) or (pl in (None, {}) and got_pl in (None, {}))
+            if c["emitter"] == "batch.rejection":
+                # the rejection explains itself in error.data; its wording is free
+                payload_eq = isinstance(got_pl, dict) and got_pl.get("batching_supported") is False
+            recs.append({"emitter": c["emitter"], "want": want, "backend": "fallback" if fb else "pydantic", "form": form, "env": f["env"], "penv": f["parsed"]["env"],
+                         "idEq": bool(id_eq), "sameTree": f["parsed"]["tree"] == f["tree"], "payloadEq": bool(payload_eq), "built": True, "pcls": f["parsed"]["cls"], "src": c})
+    return recs
+
+
 def check_c02(ctx):
     quick = ctx.tier == "quick"
     ctx.cov["rule"] = ("cases = (emitter, id, payload, back end, serialised form): the 13 message constructors (typed classes, create_* helpers, legacy class methods) x 10 ids (0, negative, 2^63, 2^64-1, empty/digit/text strings) "
@@ -406,59 +466,8 @@ def check_c02(ctx):
         ctx.cov["emitter_sites_without_driver"] = unknown
         if unknown and not fb:
             ctx.note("functions that build JSON-RPC messages and are not in the emitter table of harness/props/models.py (no driver yet): %s" % ", ".join(unknown))
-        for c, o in zip(cases, out):
-            want = EMITTERS[c["emitter"]]
-            if not o["built"]:
-                ctx.cov.setdefault("not_built_examples", [])
-                if len(ctx.cov["not_built_examples"]) < 6:
-                    ctx.cov["not_built_examples"].append([c["emitter"], "fallback" if fb else "pydantic", o.get("exc"), str(untag(c["id"]))[:30]])
-                recs.append({"emitter": c["emitter"], "want": want, "backend": "fallback" if fb else "pydantic", "form": "none", "env": {"obj": False}, "penv": {"obj": False}, "idEq": False, "sameTree": False, "built": False})
-                continue
-            idv = untag(c["id"])
-            for form, f in o["forms"].items():
-                d = untag(f["tree"])
-                pd = untag(f["parsed"]["tree"]) if f["parsed"]["env"].get("obj") else None
-                want_id = want != "notification"
-                if c["emitter"] == "send_tools_call" or (c["emitter"] == "send_message" and not idv):
-                    # the helper generates the id: any non-empty string, the same before and after parsing
-                    want_id = False
-                    gen_ok = isinstance(d, dict) and isinstance(d.get("id"), str) and d["id"] != "" and isinstance(pd, dict) and pd.get("id") == d["id"]
-                else:
-                    gen_ok = True
-                id_eq = gen_ok and (not want_id) or (isinstance(pd, dict) and "id" in pd and pd["id"] == idv and type(pd["id"]) is type(idv) and isinstance(d, dict) and d.get("id") == idv and type(d.get("id")) is type(idv))
-                pl = untag(c["payload"])
-                if c["emitter"] == "create_request_token":
-                    pl = dict(pl or {})
-                    pl["_meta"] = dict(pl.get("_meta") or {}, progressToken="tok-1")
-                elif c["emitter"] == "send_tools_call":
-                    pl = {"name": "tool-x", "arguments": pl or {}}
-                elif c["emitter"] == "send_cancelled_notification":
-                    pl = {"requestId": idv, "reason": "why"}
-                elif c["emitter"] == "send_progress_notification":
-                    pl = {"progressToken": idv, "progress": 0.5, "total": 1.0, "message": "half"}
-                elif c["emitter"].startswith("batch.item_error") or c["emitter"] in ("handle_elicitation_request:fails", "batch.rejection"):
-                    pl = None
-                elif c["emitter"] in ("send_initialized_notification", "send_roots_list_changed.notifications", "send_roots_list_changed.roots"):
-                    pl = {}
-                elif c["emitter"] == "handle_roots_list_request":
-                    pl = {"roots": [{"uri": "file:///tmp/verif", "name": "r\u2028"}]}
-                elif c["emitter"] == "handle_elicitation_request":
-                    pl = {"data": pl if pl is not None else {}, "cancelled": False}
-                if want == "result":
-                    got_pl = d.get("result") if isinstance(d, dict) else None
-                    if pl is None or (pl == {} and c["emitter"].startswith(("create", "legacy"))):
-                        pl = {}
-                elif want == "error":
-                    got_pl = (d.get("error") or {}).get("data") if isinstance(d, dict) else None
-                else:
-                    got_pl = d.get("params") if isinstance(d, dict) else None
-                payload_eq = tag(got_pl) == tag(pl) or (pl in (None, {}) and got_pl in (None, {}))
-                if c["emitter"] == "batch.rejection":
-                    # the rejection explains itself in error.data; its wording is free
-                    payload_eq = isinstance(got_pl, dict) and got_pl.get("batching_supported") is False
-                recs.append({"emitter": c["emitter"], "want": want, "backend": "fallback" if fb else "pydantic", "form": form, "env": f["env"], "penv": f["parsed"]["env"],
-                             "idEq": bool(id_eq), "sameTree": f["parsed"]["tree"] == f["tree"], "payloadEq": bool(payload_eq), "built": True, "pcls": f["parsed"]["cls"]})
-    slim = [{k: v for k, v in x.items() if k not in ("built", "pcls")} for x in recs if x["built"]]
+        recs += emit_recs(cases, out, fb, ctx.cov)
+    slim = [{k: v for k, v in x.items() if k not in ("built", "pcls", "src")} for x in recs if x["built"]]
     res = validate.validate("EnvelopeTrace", slim, {}, work=os.path.join(ctx.work, "val"), chunk=3000)
     if res["rejected"]:
         raise Machinery("envelope cases not consumed")
@@ -475,5 +484,5 @@ def check_c02(ctx):
         for c in cls:
             if c in EMITTERS:
                 continue
-            ctx.report("clause=%s emitter=%s form=%s backend=%s" % (c, x["emitter"], x["form"], x["backend"]), json.dumps(x)[:400],
-                       {"kind": "envelope_case", "case": x, "clause": c})
+            ctx.report("clause=%s emitter=%s form=%s backend=%s" % (c, x["emitter"], x["form"], x["backend"]), json.dumps({k: v for k, v in x.items() if k != "src"})[:400],
+                       {"kind": "envelope_case", "case": {k: v for k, v in x.items() if k != "src"}, "src": x["src"], "clause": c})
